@@ -135,7 +135,9 @@ fn run(cmd: &str, args: &[&str]) -> String {
 
 fn main() {
     // keep panic messages out of the result stream; outcome classes are what is compared
-    std::panic::set_hook(Box::new(|_| {}));
+    if std::env::var("WV_PANIC_MSG").is_err() {
+        std::panic::set_hook(Box::new(|_| {}));
+    }
     let stdin = std::io::stdin();
     let stdout = std::io::stdout();
     let mut out = std::io::BufWriter::new(stdout.lock());
